@@ -347,7 +347,20 @@ func traceDone(out []bpf.Instruction, err error, keep bool) bool {
 	return true
 }
 
+var judged int
+
 func judge(c *caseIn, origin string) result {
+	judged++
+	if judged%5 == 0 {
+		// history: an Assemble that fails (a jump whose two branches both go to the next instruction) precedes this program
+		bad := seccomp.NewProgram()
+		l := bad.NewLabel()
+		bad.LdLo(0)
+		bad.JmpIf(bpf.JumpEqual, 1, l, l)
+		bad.SetLabel(l)
+		bad.Ret(seccomp.ActionAllow)
+		assemble(&bad)
+	}
 	p := c.Insts
 	r := result{ID: c.ID, Origin: origin, N: len(p), PerBranch: c.PerBranch, Useless: isUseless(p), MaxDist: maxDist(p)}
 	prog := build(p, c.PerBranch)
